@@ -68,7 +68,7 @@ PickVals(S, k, fld, Allowed) ==
 Rec(c, n, type, now, dest, qd, sid) ==
     [id |-> c.id, n |-> n, type |-> type, cls |-> c.pcls, ocls |-> c.ocls,
      arr |-> c.arr, wait |-> NONE, ss |-> NONE, st |-> NONE, se |-> NONE, tb |-> NONE,
-     exit |-> now, dest |-> dest, qa |-> c.qa, qd |-> qd, sid |-> sid]
+     exit |-> now, dest |-> dest, qa |-> c.qa, qd |-> qd, sid |-> sid, dec |-> TRUE]
 
 \* append record r of customer c and update the customer's last-record summary
 WriteRec(S, i, r) ==
